@@ -10,11 +10,17 @@ META = {
     "note": "Trusted: Coq kernel + vm_compute; the correspondence harness; strconv.IsPrint (parameter + checked hypothesis), strconv shortest float formatting / ParseFloat and big.Int decimal conversion as named oracles; unicode/utf8 is defined in Coq and cross-checked; the parser beyond literals/displays/unary minus is not modelled (C14).",
     "technique": "Coq proof over executable model + differential correspondence (vm_compute) + Spec.v oracle + direct round-trip on the implementation",
 }
-HEADER = ("From Coq Require Import NArith ZArith List Bool.\n"
+HEADER = ("From Coq Require Import NArith ZArith List Bool String Ascii.\n"
           "From SV Require Import C15.Utf8 C15.Float C15.Quote C15.Spec C15.Value.\n"
           "Import ListNotations.\nOpen Scope N_scope.\n")
 
-PRELUDE = r"""
+HEXDEF = r"""
+(* byte strings are passed as hexadecimal string literals (cheap to elaborate) *)
+Definition hv (a : ascii) : N := let n := N_of_ascii a in if (n <? 58)%N then (n - 48)%N else (n - 87)%N.
+Fixpoint hx (s : string) : list N :=
+  match s with String a (String b r) => (16 * hv a + hv b)%N :: hx r | _ => [] end.
+"""
+PRELUDE = HEXDEF + r"""
 Definition mem (l : list N) (r : N) : bool := existsb (N.eqb r) l.
 Inductive sobs := SErr | SOk (is_bytes : bool) (v : list N) (rest : list N).
 Inductive uobs := UErr | UOk (v : list N) (triple is_bytes : bool).
@@ -86,8 +92,22 @@ def par_mismatches(ctx, name, header, cases, fns, shard=500, workers=6):
     return out
 
 
+_groups = {}
+
+
+def finding(ctx, key, what, replay, cap=3):
+    """ctx.finding, at most `cap` distinct keys per key group (text before the first colon):
+    one broken rule shows up in many input classes; a handful of replays is enough."""
+    g = key.split(":")[0]
+    ks = _groups.setdefault(g, set())
+    if key not in ks and len(ks) >= cap:
+        return
+    ks.add(key)
+    ctx.finding(key, what, replay)
+
+
 def hb(h):
-    return "[" + "; ".join(str(b) for b in bytes.fromhex(h)) + "]"
+    return '(hx "%s"%%string)' % h if h else "[]"
 
 
 def nl(xs):
@@ -124,19 +144,19 @@ def string_terms(cases):
     return terms, refs
 
 
-VPRELUDE = r"""
+VPRELUDE = HEXDEF + r"""
 Open Scope N_scope.
 Definition mem (l : list N) (r : N) : bool := existsb (N.eqb r) l.
 Definition lookup (sh : list (N * (bool * list N * Z))) (bits : N) : bool * list N * Z :=
   match find (fun p => fst p =? bits) sh with Some p => snd p | None => (false, [], 0%Z) end.
 Inductive case :=
-| CVal (v : value) (pr : list N) (sh : list (N * (bool * list N * Z))) (text : list N)
+| CVal (v : value) (pr : list N) (sh : list (N * (bool * list N * Z))) (text : list N) (strtext : list N)
 | CCyc (h : heap) (root : hval) (pr : list N) (text : list N).
 Definition model_ok (c : case) : bool :=
   match c with
-  | CVal v pr sh text => bytes_eqb (write_value (mem pr) (lookup sh) v) text
+  | CVal v pr sh text st => bytes_eqb (write_value (mem pr) (lookup sh) v) text && bytes_eqb (str_value (mem pr) (lookup sh) v) st
   | CCyc h root pr text =>
-    match write_heap (mem pr) (lookup []) (S (length h)) h [] root with
+    match write_heap (mem pr) (lookup []) (S (List.length h)) h [] root with
     | WOk out => bytes_eqb out text
     | _ => false
     end
@@ -145,7 +165,7 @@ Definition model_ok (c : case) : bool :=
    bit-identical) according to the reader of the literal/display fragment *)
 Definition spec_ok (c : case) : bool :=
   match c with
-  | CVal v pr sh text =>
+  | CVal v pr sh text _ =>
     match read_expr 200 text with
     | ROk v' [] => value_eqb v v'
     | _ => false
@@ -213,15 +233,21 @@ CYCLES = {
 def run_values(ctx, hx, dist):
     q = ctx.quick()
     n = 1500 if q else 40000
-    ncoq = 250 if q else 2500
+    ncoq = 180 if q else 2500
     cases = ctx.jsonl([hx, "values", "-seed", str(ctx.seed), "-n", str(n), "-coq", str(ncoq)], timeout=800)
     summ = [c for c in cases if c["kind"] == "summary"][0]
     dist.update(summ["dist"])
+    res = process_values(ctx, cases, 200 if q else 500)
+    res["evaluations"] += n
+    return res
+
+
+def process_values(ctx, cases, shard):
     terms, refs = [], []
     for c in cases:
         k = c["kind"]
         if k == "value_fail":
-            ctx.finding("repr-roundtrip:" + c["class"], "Eval(repr(v)) is not v for a %s: %s (repr = %s)" % (c["class"], c["what"], bytes.fromhex(c["repr"])[:200]), c)
+            finding(ctx, "repr-roundtrip:" + c["class"], "Eval(repr(v)) is not v for a %s: %s (repr = %s)" % (c["class"], c["what"], bytes.fromhex(c["repr"])[:200]), c)
         elif k == "cycle":
             if c["what"] == "list-struct-list":
                 if c["status"] != "ok":
@@ -236,7 +262,7 @@ def run_values(ctx, hx, dist):
         elif k == "value":
             pr, sh = set(), {}
             vt = value_term(c["v"], pr, sh)
-            terms.append("(CVal %s %s %s %s)" % (vt, nl(sorted(pr)), sh_term(sh), hb(c["repr"])))
+            terms.append("(CVal %s %s %s %s %s)" % (vt, nl(sorted(pr)), sh_term(sh), hb(c["repr"]), hb(c["str"])))
             refs.append(c)
     seen, ut, ur = set(), [], []
     for t, r in zip(terms, refs):
@@ -246,24 +272,20 @@ def run_values(ctx, hx, dist):
             ur.append(r)
     ctx.log("evaluating %d distinct value cases in Coq (printer model and reader)" % len(ut))
     header = HEADER.replace("Open Scope N_scope.\n", "") + VPRELUDE
-    bad_model, bad_spec = par_mismatches(ctx, "c15_values", header, ut, ["model_ok", "spec_ok"], shard=90 if q else 400)
+    bad_model, bad_spec = par_mismatches(ctx, "c15_values", header, ut, ["model_ok", "spec_ok"], shard=shard) if ut else ([], [])
     for i in bad_spec:
         c = ur[i]
-        ctx.finding("repr-not-denoting:" + c["v"]["t"], "repr printed %s, which does not denote the value (type/bits exact) according to the reader" % bytes.fromhex(c["repr"])[:200], c)
+        finding(ctx, "repr-not-denoting:" + c["v"]["t"], "repr printed %s, which does not denote the value (type/bits exact) according to the reader" % bytes.fromhex(c["repr"])[:200], c)
     only_model = [i for i in bad_model if i not in set(bad_spec)]
     if only_model:
         c = ur[only_model[0]]
         ctx.broken("correspondence:C15.Value", "printer model and implementation differ on %d case(s), e.g. %s" % (len(only_model), str(c)[:600]))
-    return {"evaluations": n + len(ut), "distinct": len(ut), "samples": ur[:2] + ur[-2:], "model_mismatches": len(bad_model), "spec_mismatches": len(bad_spec)}
+    return {"evaluations": len(ut), "distinct": len(ut), "samples": ur[:2] + ur[-2:], "model_mismatches": len(bad_model), "spec_mismatches": len(bad_spec)}
 
 
-def run(ctx):
-    ctx.proofs()
-    hx = ctx.go_build("c15")
+def run_strings(ctx, hx, cov_dist):
     q = ctx.quick()
-    cov_dist = {}
     evaluations = 0
-
     # --- hypothesis of the theorems about strconv.IsPrint, against the real function
     ip = ctx.jsonl([hx, "isprint", "-seed", str(ctx.seed)] + ([] if q else ["-full"]))[0]
     evaluations += ip["checked"]
@@ -272,14 +294,21 @@ def run(ctx):
     ctx.notes.append("is_print hypothesis checked on %d code points (%s), %d printable, 0 violations" % (ip["checked"], "all" if ip["full"] else "all < 0x3000 + sample", ip["printable"]))
 
     # --- strings: quote / scan / unquote / utf8
-    n = 500 if q else 6000
+    n = 300 if q else 6000
     cases = ctx.jsonl([hx, "strings", "-seed", str(ctx.seed), "-n", str(n)] + ([] if q else ["-sweep"]), timeout=800)
     summ = [c for c in cases if c["kind"] == "summary"][0]
     cov_dist.update(summ["dist"])
     evaluations += summ["direct_round_trips"] + 4 * summ["swept_code_points"]
+    res = process_strings(ctx, cases, 600 if q else 1500)
+    res["evaluations"] += evaluations
+    res["isprint"] = ip
+    return res
+
+
+def process_strings(ctx, cases, shard):
     for c in cases:
         if c["kind"] == "rt_fail":
-            ctx.finding("roundtrip:%s:%s" % ("bytes" if c["b"] else "string", c["class"]),
+            finding(ctx, "roundtrip:%s:%s" % ("bytes" if c["b"] else "string", c["class"]),
                         "Quote/unquote round trip fails on %s %s: %s" % ("bytes" if c["b"] else "string", bytes.fromhex(c["s"]), c["what"]), c)
     terms, refs = string_terms(cases)
     seen, uterms, urefs = set(), [], []
@@ -289,7 +318,7 @@ def run(ctx):
             uterms.append(t)
             urefs.append(r)
     ctx.log("evaluating %d distinct string cases in Coq (model and specification)" % len(uterms))
-    bad_model, bad_spec = par_mismatches(ctx, "c15_strings", HEADER + PRELUDE, uterms, ["model_ok", "spec_ok"], shard=350 if q else 1000)
+    bad_model, bad_spec = par_mismatches(ctx, "c15_strings", HEADER + PRELUDE, uterms, ["model_ok", "spec_ok"], shard=shard) if uterms else ([], [])
     for i in bad_spec:
         c = urefs[i]
         if c["kind"] == "quote":
@@ -298,24 +327,57 @@ def run(ctx):
         else:
             key = "scan-disagrees-with-spec:" + ("error" if c["obs"].get("err") else "value")
             what = "scanning %s gives %s, the specification's reader disagrees" % (bytes.fromhex(c["src"]), c["obs"])
-        ctx.finding(key, what, c)
+        finding(ctx, key, what, c)
     only_model = [i for i in bad_model if i not in set(bad_spec)]
     if only_model:
         c = urefs[only_model[0]]
         ctx.broken("correspondence:C15.Quote", "model and implementation differ on %d case(s) where the specification is met, e.g. %s" % (len(only_model), c))
-    evaluations += len(uterms)
+    return {"evaluations": len(uterms), "distinct": len(uterms), "samples": urefs[:2] + urefs[len(urefs) // 2: len(urefs) // 2 + 2],
+            "model_mismatches": len(bad_model), "spec_mismatches": len(bad_spec)}
 
-    # --- values
-    vres = run_values(ctx, hx, cov_dist)
-    evaluations += vres["evaluations"]
 
+def run_replay(ctx, hx):
+    """bin/check C15 --replay file: re-run the recorded input on the implementation and re-judge it."""
+    import json
+    rec = json.load(open(ctx.replay_path))
+    obj = rec.get("replay", rec)
+    cases = ctx.jsonl([hx, "replay"], input=json.dumps(obj), timeout=300)
+    ctx.log("replay produced %d observation(s)" % len(cases))
+    for c in cases:
+        if c["kind"] == "isprint" and c["violations"]:
+            ctx.finding("isprint-hypothesis", "strconv.IsPrint declares control character(s) %s printable" % c["violations"][:5], c)
+    sres = process_strings(ctx, cases, 1000)
+    vres = process_values(ctx, cases, 500)
+    ctx.proofs()
+    return ctx.finish(LEVEL, {"evaluations": len(cases), "distinct_nontrivial": sres["distinct"] + vres["distinct"],
+                              "rule": "replay of one recorded input", "samples": cases[:3], "distribution": {}})
+
+
+def run(ctx):
+    import concurrent.futures as cf
+    hx = ctx.go_build("c15")
+    ctx.log("harness built")
+    if getattr(ctx, "replay_path", None):
+        return run_replay(ctx, hx)
+    d1, d2 = {}, {}
+    # the three stages are independent: audit of the theorems, strings, values
+    with cf.ThreadPoolExecutor(max_workers=3) as ex:
+        fp = ex.submit(ctx.proofs)
+        fs = ex.submit(run_strings, ctx, hx, d1)
+        fv = ex.submit(run_values, ctx, hx, d2)
+        fp.result()
+        ctx.log("proofs audited")
+        sres = fs.result()
+        vres = fv.result()
+    cov_dist = dict(d1)
+    cov_dist.update(d2)
     cov = {
-        "evaluations": evaluations, "distinct_nontrivial": len(uterms) + vres["distinct"],
-        "rule": "strings from a boundary pool (every escape class: controls, quotes, backslash, DEL, C1 controls, U+0085, U+2028, soft hyphen, BOM, U+FFFD, noncharacters, astral, U+10FFFF, ill-formed UTF-8 chunks, every single byte) plus seeded random strings, in both string and bytes mode; literal source text from a grammar of prefixes/delimiters/escapes (valid and invalid) with single-byte corruptions; values nested to depth 6 with sharing; cyclic values in child processes. distinct = distinct Coq terms evaluated against C15 model (correspondence) and C15.Spec (oracle); thorough additionally round-trips every code point and every byte pair directly.",
-        "samples": urefs[:2] + urefs[len(urefs) // 2: len(urefs) // 2 + 2] + vres["samples"],
+        "evaluations": sres["evaluations"] + vres["evaluations"], "distinct_nontrivial": sres["distinct"] + vres["distinct"],
+        "rule": "strings from a boundary pool (every escape class: controls, quotes, backslash, DEL, C1 controls, U+0085, U+2028, soft hyphen, BOM, U+FFFD, noncharacters, astral, U+10FFFF, ill-formed UTF-8 chunks, every single byte) plus seeded random strings, in both string and bytes mode; literal source text from a grammar of prefixes/delimiters/escapes (valid and invalid) with single-byte corruptions; values (ints of any size, floats over the binary64 range incl. -0.0, subnormals, powers of two +-1ulp) nested to depth 6 with sharing; cyclic values in child processes. distinct = distinct Coq terms evaluated against the C15 model (correspondence) and C15.Spec / the reader (oracle); thorough additionally round-trips every code point and every byte pair directly.",
+        "samples": sres["samples"] + vres["samples"],
         "distribution": cov_dist,
-        "model_mismatches": len(bad_model) + vres["model_mismatches"], "spec_mismatches": len(bad_spec) + vres["spec_mismatches"],
-        "isprint": ip,
+        "model_mismatches": sres["model_mismatches"] + vres["model_mismatches"], "spec_mismatches": sres["spec_mismatches"] + vres["spec_mismatches"],
+        "isprint": sres["isprint"],
     }
     return ctx.finish(LEVEL, cov, assumptions=[
         "strconv.IsPrint: parameter of the model; hypothesis `printable implies not CR/LF` checked against the real function (all code points in the thorough tier)",
